@@ -1481,6 +1481,9 @@ class Distributions(object):
                 Q[dst] += IM[src]
         else:  # quadrant
             Q = IM[self.flip_row, self.flip_col]
+            if self.method == 'remap':
+                # (scipy resamples in the precision / integer type of its input)
+                Q = np.asarray(Q, dtype=float)
 
         if self.method == 'remap':
             # resample to polar grid
